@@ -23,7 +23,22 @@ def run(tier):
     ck = Check("C09", tier)
     vlib.build()
     rng = random.Random(seed())
-    stats = {"combinations": 0, "schedules_enumerated": 0, "runs": 0, "stuck": 0, "diverged": 0, "rejected": 0, "model_deadlocks": 0}
+    stats = {"combinations": 0, "schedules_enumerated": 0, "replays": 0, "stuck": 0, "diverged": 0, "rejected": 0, "model_deadlocks": 0}
+    # S2: the concurrent storage protocol at lock granularity (writers x snapshotter x rotation x compaction)
+    base = dict(NW=2, OpsPerWriter=1, ManualSnaps=1, SnapEvery=1, RotAfter=1, ManLockThroughCompaction="TRUE", GuardUnderLock="TRUE", SeqUnderSnapLock="TRUE")
+    grid = [dict(), dict(SnapEvery=0, ManualSnaps=2), dict(NW=1, OpsPerWriter=2, SnapEvery=2, ManualSnaps=2)]
+    if tier == "thorough":
+        grid += [dict(OpsPerWriter=2, SnapEvery=2)]
+    for g in grid:
+        r = tlc("DurabilityConc", consts=dict(base, **g), workers=8, timeout=3000, xmx="14g")
+        ck.add_tlc("DurabilityConc model check %s" % g, r, note="QuiescentRecovers NoStaleSnapshotWins ActiveListed NoModelDeadlock")
+    for name, g, inv in [("manifest_lock released during compaction", dict(ManLockThroughCompaction="FALSE", OpsPerWriter=2, SnapEvery=2), "ActiveListed"),
+                         ("stale-snapshot guard outside manifest_lock", dict(GuardUnderLock="FALSE", OpsPerWriter=2, SnapEvery=2), "NoStaleSnapshotWins"),
+                         ("sequence number allocated before snapshot_lock.read", dict(SeqUnderSnapLock="FALSE", NW=1, SnapEvery=0), "QuiescentRecovers")]:
+        r = tlc("DurabilityConc", consts=dict(base, **g), workers=8, timeout=1200, expect_violation=True)
+        ck.add_tlc("DurabilityConc expected counterexample: " + name, r)
+        if r.violation != inv:
+            ck.drift("DurabilityConc.tla no longer yields the expected counterexample for '%s' (got %s)" % (name, r.violation))
     pool = []
     for nt in (2, 3):
         r = tlc("ConcGen", consts={"MaxLen": 2 if nt == 2 else 1, "NThreads": nt, "WithSnapshot": "TRUE"}, workers=4, timeout=600)
@@ -45,7 +60,7 @@ def run(tier):
         scheds += sc.random_schedules(rng, lockprogs, 8 if tier == "quick" else 300, 6)
         reports = sc.run_many(state, progs, scheds, recover=True)
         for s, rep in zip(scheds, reports):
-            stats["runs"] += 1
+            stats["replays"] += 1
             if rep["outcome"] != "completed":
                 stats["stuck"] += 1
                 ck.drift("schedule of combination %d in state %s did not complete (%s): C08's subject" % (ci, state, rep["outcome"]))
